@@ -23,7 +23,10 @@ RULE = ("one case = one history of saves (categories Op/OpX/Op_Y/O/Op_ or, every
         "fnmatch patterns with character classes / ranges / negations / brackets made literal (alone, as a list "
         "alternative, next to another key) x stored texts that match, do not match or ARE the pattern text x plain / "
         "default lookup x key prefixes, plus random histories of short texts looked up with random patterns over the "
-        "alphabet ab1[]!-*?x; non-trivial = the lookup "
+        "alphabet ab1[]!-*?x; histories with saves that FAIL "
+        "part-way on S3 (the bucket refuses the first or the second put of a save, alone or with everything after it: of a new recording, of a stored one, of "
+        "one that is saved successfully on a retry; such a save stores nothing on the other cassettes) x key prefixes x "
+        "lookups + a random stream of such histories; non-trivial = the lookup "
         "selects a non-empty proper subset of the stored recordings; distinct = distinct (history, lookup)")
 EXHAUSTIVE = {"quick": False, "thorough": False}
 ASSUMPTIONS = [
@@ -34,6 +37,9 @@ ASSUMPTIONS = [
     "limit is None or >= 1 (limit=0 means 'no limit' on the in-memory/file cassette and 'nothing' on S3: recorded as "
     "an observation, not part of the theorem or of the count rule)",
     "cassettes_agree: metadata is JSON-native (S3 matches on json.loads of the encoded metadata)",
+    "a save that raised did not save: the model is run on the successful saves only (C15 proves that a save interrupted after "
+    "any of its bucket mutations leaves nothing that lookup can discover without being fetchable); the direct predicate "
+    "checks it on the implementation (not listed, or at least fetchable - the recording of a failed save must not be listed)",
     "the bucket holds no foreign key under this cassette's metadata root (C15 owns confinement); sibling key "
     "prefixes are exercised as decoys on the implementation side (with a category called 'metadata' only those "
     "siblings whose root is not inside this cassette's root: layout_decoys)",
@@ -308,6 +314,78 @@ def pattern_cases(rng, tier):
             f.insert(rng.randrange(len(f) + 1), ["region", v])
             q.update(hist=hist, kp=KPS[k % len(KPS)], filter=f)
             out.append(q)
+FAILED_BASE = 4500     # ordinals of recordings none of whose saves succeeded (harness/impl/lookup_driver.py)
+
+
+def failing_histories():
+    """Saves that fail part-way on S3 (the bucket refuses the n-th mutation of the save: 0 = the first put, 1 = the second
+    one - and everything after it, as when the process dies, or with "only" just that one request; save_recording raises, TapeRecorder would log and carry on): a recording whose save failed was not saved, so no
+    lookup may hand out its id; a re-save that failed leaves the earlier version; a retry that succeeds counts.
+    Returns [(history of successful saves, failing saves)]; "after": the failing save happens before hist[after]."""
+    u = ["%032x" % (0xfa10 + i) for i in range(12)]
+    ta = [["tenant", pv.s("a")]]
+    tb = [["tenant", pv.s("b")]]
+    out = []
+    for crash, only in ((1, False), (0, False), (0, True)):
+        h = [dict(cat="Op", uuid=u[0], ct=1 * H, t=1 * H, meta=ta),
+             dict(cat="Op", uuid=u[1], ct=2 * H, t=2 * H, meta=tb),
+             dict(cat="OpX", uuid=u[2], ct=3 * H, t=3 * H, meta=ta),
+             dict(cat="Op", uuid=u[5], ct=DAY + 4 * H, t=DAY + 6 * H, meta=ta),       # the retry of a failed first save
+             dict(cat="Op", uuid=u[3], ct=DAY + 7 * H, t=DAY + 7 * H, meta=[["tenant", pv.s("a")], [INC, pv.b(True)]])]
+        failed = [dict(cat="Op", uuid=u[4], ct=2 * H + 1, t=2 * H + 1, meta=ta, crash=crash, after=2),      # never saved
+                  dict(cat="Op", uuid=u[1], ct=2 * H, t=3 * H + 1, meta=ta, crash=crash, after=3),           # failed re-save
+                  dict(cat="Op", uuid=u[5], ct=DAY + 4 * H, t=DAY + 4 * H, meta=ta, crash=crash, after=3),   # retried later
+                  dict(cat="OpX", uuid=u[6], ct=DAY + 8 * H, t=DAY + 8 * H, meta=tb, crash=crash, after=5),  # the last call
+                  dict(cat="Op", uuid=u[7], ct=DAY + 9 * H, t=DAY + 9 * H, meta=[], crash=1 - crash, after=5)]
+        if only:      # only that one put is refused (size cap, throttling): whatever the save does afterwards gets through
+            failed = [dict(f, only=True) for f in failed]
+        out.append((h, failed))
+    # nothing was ever saved successfully
+    out.append(([], [dict(cat="Op", uuid=u[8], ct=H, t=H, meta=ta, crash=1, after=0),
+                     dict(cat="Op", uuid=u[9], ct=2 * H, t=2 * H, meta=[], crash=0, after=0)]))
+    return out
+
+
+def failing_targeted():
+    out = []
+    for n, (h, failed) in enumerate(failing_histories()):
+        for kp in (KPS if n == 0 else ["", "p/q"] if n != 2 else ["p", "metadata"]):
+            for cat in ("Op", "OpX"):
+                for f, lim, skip, win in ((None, None, None, False), (ta_filter(), None, None, False), (None, 2, None, False),
+                                          (None, None, True, False), (None, None, None, True), (ta_filter(), 50, False, True)):
+                    out.append(dict(hist=h, failed=failed, kp=kp, cat=cat, filter=f, limit=lim, random=0, sched=[0], seed=0,
+                                    start=0 if win else None, end=2 * DAY if win else None, now=2 * DAY, skip=skip))
+    return out
+
+
+def ta_filter():
+    return [["tenant", pv.s("a")]]
+
+
+def rand_failed(rng, hist, pool):
+    """1-3 failing saves spread over a random history: of new recordings, of stored ones (re-save), of ones saved later"""
+    out = []
+    for _ in range(rng.randrange(1, 4)):
+        after = rng.randrange(0, len(hist) + 1)
+        r = rng.random()
+        if r < 0.45 or not hist:
+            t = (hist[after - 1]["t"] + 1) if after else 0
+            out.append(dict(cat=rng.choice(pool), uuid=rand_hex(rng), ct=t, t=t, meta=rand_meta(rng), crash=rng.choice([0, 1, 1]),
+                            after=after))
+        elif r < 0.8 and after:
+            e = rng.choice(hist[:after])                        # re-save of a stored recording fails
+            out.append(dict(cat=e["cat"], uuid=e["uuid"], ct=e["ct"], t=hist[after - 1]["t"] + 1, meta=rand_meta(rng),
+                            crash=rng.choice([0, 1, 1]), after=after))
+        else:
+            k = rng.randrange(len(hist))                        # the first attempt of a save that succeeds later (or earlier)
+            e = hist[k]
+            first = min(i for i, x in enumerate(hist) if x["uuid"] == e["uuid"])
+            out.append(dict(cat=e["cat"], uuid=e["uuid"], ct=e["ct"], t=e["ct"], meta=rand_meta(rng), crash=rng.choice([0, 1, 1]),
+                            after=first))
+    for f in out:
+        if rng.random() < 0.4:
+            f["only"] = True
+    out.sort(key=lambda f: f["after"])
     return out
 
 
@@ -337,6 +415,18 @@ def generate(rng, tier):
     prng = random.Random(rng.random())      # own stream: the cases above are those of the earlier rounds
     cases += pattern_stream()
     cases += pattern_cases(prng, tier)
+    # histories with saves that fail part-way on S3 (deterministic probes + a random stream with its own generator: the
+    # streams above draw the same cases as before this one existed)
+    cases += failing_targeted()
+    rng_f = __import__("random").Random(rng.getrandbits(64))
+    for k in range(8 if tier == "quick" else 120):
+        hist = rand_hist(rng_f, native=True)
+        failed = rand_failed(rng_f, hist, CATS)
+        kp = KPS[k % len(KPS)]
+        for _ in range(8 if tier == "quick" else 12):
+            q = rand_query(rng_f, hist)
+            q.update(hist=hist, kp=kp, failed=failed)
+            cases.append(q)
     return cases
 
 
@@ -494,6 +584,13 @@ def direct(case, obs):
         for i in got:
             if i >= 0 and i not in want:
                 why = why_not(case, st[i], s3) if i in st else "not-stored"
+                if i >= FAILED_BASE and case.get("failed"):
+                    fl = [f for k, f in enumerate(case["failed"]) if f["uuid"] == case["failed"][i - FAILED_BASE]["uuid"]]
+                    fails.append((name + "-" + pre + why, "%s listed a recording that was never saved for category %r filter %s: "
+                                  "every save of it failed (category %s; the bucket refused mutation number %s of the save, "
+                                  "save_recording raised %s)" % (name, case["cat"], case["filter"], fl[0]["cat"],
+                                                                [f["crash"] for f in fl], obs.get("failed_saves"))))
+                    break
                 fails.append((name + "-" + pre + why, "%s listed recording #%d (%s, meta %s) for category %r filter %s: %s" %
                               (name, i, st.get(i, {}).get("cat"), st.get(i, {}).get("meta"), case["cat"], case["filter"], why)))
                 break
@@ -542,6 +639,11 @@ def features(case):
     if not all(native(v) for e in case["hist"] for _, v in e["meta"]):
         f.add("metadata-with-class-reference")
     f.add("stored=%d" % min(len(stored(case["hist"])), 10))
+    st_ = {e["uuid"] for e in case["hist"]}
+    for fl in case.get("failed") or []:
+        f.add("failed-s3-save:refused-mutation=%d%s" % (fl["crash"], "-only" if fl.get("only") else "-and-all-later"))
+        f.add("failed-s3-save:" + ("of-a-recording-that-is-never-saved" if fl["uuid"] not in st_ else
+                                   "re-save-or-first-attempt-of-a-saved-recording"))
     st = stored(case["hist"])
     n3 = sum(1 for e in st.values() if why_not(case, e, True) is None)
     if case["limit"] and case["limit"] < n3:
@@ -570,8 +672,11 @@ def shrink_candidates(case):
     if case.get("kind") == "cat":
         return
     h = case["hist"]
+    fl = case.get("failed") or []
+    for j in range(len(fl)):
+        yield dict(case, failed=fl[:j] + fl[j + 1:])
     for i in range(len(h)):
-        yield dict(case, hist=h[:i] + h[i + 1:])
+        yield dict(case, hist=h[:i] + h[i + 1:], failed=[dict(f, after=f["after"] - (1 if f["after"] > i else 0)) for f in fl])
     if case["filter"]:
         for i in range(len(case["filter"])):
             yield dict(case, filter=case["filter"][:i] + case["filter"][i + 1:])
@@ -599,7 +704,8 @@ MANIFEST = dict(
          'scripted or real RNG); direct predicate (subset, exact category, filter, count, no duplicates, fetchable, '
          'cassettes agree, skip-incomplete) on the implementation; string filters are checked against the documented '
          'fnmatch meaning including character classes, ranges, negations and literal brackets on all three cassettes '
-         '(model side: a Gallina transcription of fnmatch.translate, direct predicate: Python fnmatch).',
+         '(model side: a Gallina transcription of fnmatch.translate, direct predicate: Python fnmatch); histories in which '
+         'saves fail part-way on S3 are included.',
     note='Trusted: Coq kernel + vm_compute; hand-written models of the three iter_recording_ids, iter_keys, '
          'find_matching_recording_ids; the C14 matcher model; strftime/listdir/shuffle/choice/uuid as oracles; '
          'correspondence harness. limit=0 divergence (no limit on memory/file, nothing on S3) is an observation.',
